@@ -1,5 +1,6 @@
 import PyaModel.Proofs.C19
 import PyaModel.Generated.OpTables
+import PyaModel.Generated.AttrTables
 /-!
 # Props/C19 — operations on known objects agree with performing them
 
@@ -174,15 +175,65 @@ example : (!(⟨false, false, false⟩ : AttrMiss).onlyKnown &&
 
 /-! ## D. the operation table: the finite quantifier of the property, enumerated -/
 
-/-- **The model of the verdict meets the property outside the exception classes** (all rows, not only
-the table's). -/
-theorem model_meets_spec_partial (x : Row) (h : D19 x = false) : modelDiag x = specDiag x := by
+/-- **The model of the verdict meets the property outside the exception classes** (all operator and
+subscript rows, not only the table's). -/
+theorem model_meets_spec_partial (x : Row) (hk : (x.k == 2) = false) (h : D19 x = false) :
+    modelDiag x = specDiag x := by
   simp only [D19, Bool.or_eq_false_iff] at h
-  obtain ⟨⟨⟨⟨h1, h2⟩, _⟩, h4⟩, h5⟩ := h
+  obtain ⟨⟨⟨⟨h1, h2⟩, _⟩, _⟩, _⟩ := h
   unfold modelDiag
+  rw [hk]
+  simp only [Bool.false_eq_true, if_false]
   cases specDiag x with
   | none => rfl
-  | some b => cases b <;> simp [h1, h2, h4, h5]
+  | some b => cases b <;> simp [h1, h2]
+
+/-- **Attribute access: the lookup model meets the property outside the exception classes.** For every
+attribute row (any facts) whose CPython outcome is a value or AttributeError, with consistent facts
+(`attrWF`: hooked / module-annotated names exist, no `__getattr__` on the operand's type) and outside
+`ignoredEndOfReference` / `classLevelDescriptor`: the model of `_get_attribute_from_known` +
+`_get_attribute_fallback` reports `undefined_attribute` exactly when CPython raises AttributeError. -/
+theorem attr_model_meets_spec_partial (x : Row) (hk : (x.k == 2) = true) (hc : x.c = 0 ∨ x.c = 2)
+    (hD : D19 x = false) (hwf : attrWF x = true) : modelDiag x = specDiag x := by
+  have hs0 : x.c = 0 → specDiag x = some false := by intro h; simp [specDiag, h]
+  have hs2 : x.c = 2 → specDiag x = some true := by intro h; simp [specDiag, h]
+  have hk0 : (x.k == 0) = false := by
+    have : x.k = 2 := by simpa using hk
+    simp [this]
+  simp only [D19, D19_classAsIndex, D19_sameTypeReflected, D19_subclassReflected,
+    D19_ignoredEndOfReference, D19_classLevelDescriptor, hk, hk0, attrWF, Bool.false_and, Bool.false_or,
+    Bool.true_and] at hD hwf
+  simp only [modelDiag, hk, if_true, attrReported, knownAttr, attrFallback, Row.attrFacts, Row.attrMiss]
+  generalize x.bit 0 = b0 at *
+  generalize x.bit 1 = b1 at *
+  generalize x.bit 2 = b2 at *
+  generalize x.bit 3 = b3 at *
+  generalize x.bit 4 = b4 at *
+  generalize x.bit 5 = b5 at *
+  generalize x.bit 6 = b6 at *
+  generalize x.bit 7 = b7 at *
+  generalize x.bit 8 = b8 at *
+  generalize x.bit 9 = b9 at *
+  generalize x.bit 10 = b10 at *
+  generalize x.bit 11 = b11 at *
+  generalize (x.ta == 11 || x.ta == 12) = tc at *
+  rcases hc with hc | hc
+  · rw [hs0 hc, hc]; rw [hc] at hD hwf
+    revert hD hwf; revert b0 b1 b2 b3 b4 b5 b6 b7 b8 b9 b10 b11 tc; decide
+  · rw [hs2 hc, hc]; rw [hc] at hD hwf
+    revert hD hwf; revert b0 b1 b2 b3 b4 b5 b6 b7 b8 b9 b10 b11 tc; decide
+
+/-- **No attribute name is special on the known-object route.** For an object that is not a class,
+not hooked and not a module with an annotation for the name, the lookup finds the attribute exactly
+when `getattr(obj, name)` does not raise AttributeError — whatever the name (`__dict__`, `__class__`,
+`__slots__`, …): the object itself is always consulted. Full strength (all facts). -/
+theorem knownAttr_nonclass_missing_iff (f : AttrFacts) (h1 : f.hooked = false)
+    (h2 : (f.isModule && f.modAnn) = false) (h3 : f.isType = false) (h4 : f.isEnumCls = false) :
+    knownAttr f = .missing ↔ f.getattr = .attributeError := by
+  obtain ⟨hooked, e, m, ma, t, st, d, g⟩ := f
+  simp only at h1 h2 h3 h4
+  subst h1 h3 h4
+  cases m <;> cases ma <;> cases g <;> simp_all [knownAttr]
 
 /-- **C19 over the literal universe.** Every row of the regenerated table that lies outside the
 exception classes satisfies the property: diagnosed ⇔ CPython raises TypeError/AttributeError
@@ -202,6 +253,21 @@ theorem ops_table_conforms : ∀ e ∈ opTable, conforms e = true :=
 per-side runtime facts, reproduces what CPython did on every binary row. -/
 theorem ops_table_spec : ∀ e ∈ opTable, specMatches e = true :=
   fun e he => List.all_eq_true.mp opTable_spec_all e he
+
+/-- **C19 over the attribute universe.** Every row of the regenerated attribute table (every operand
+class × every attribute name any operand has, plus names nobody has) outside the exception classes
+satisfies the property: `undefined_attribute` ⇔ `getattr` raises AttributeError, and an inferred literal
+is the real attribute value. -/
+theorem attr_table_agree : ∀ e ∈ attrTable, D19 e = false → agree e = true := by
+  intro e he hD
+  have := List.all_eq_true.mp attrTable_agree_all e he
+  simpa [hD] using this
+
+/-- **Correspondence over the attribute universe**: on every row real pyanalyze reports exactly when the
+Lean model of the known-object lookup (`attrReported`) says so, and infers exactly the real value
+whenever the model finds the attribute through `getattr` on a non-class object. -/
+theorem attr_table_conforms : ∀ e ∈ attrTable, conforms e = true :=
+  fun e he => List.all_eq_true.mp attrTable_conforms_all e he
 
 /-! Witness rows (hand-written copies of rows the pinned tree produces; ids as in the legend of
 Generated/OpTables.lean): the model — hence the pinned tree, by `ops_table_conforms` — violates the
